@@ -1,7 +1,7 @@
 """C20 - the guarantees hold for any well-formed configuration, not only the demo one"""
-from ..rules import vocab, extrapolate, search, memo
+from ..rules import config, vocab, extrapolate, search, memo
 
-DECIDES = ("no literal of the demo vocabulary (recomputed from the folded configuration on every run) in a semantic position of library code (R-VOCAB); leaf / narrowing / alias / key-order / separator decisions read the configured tables (R-TBL); values are never case-folded (R-NOCASE); no class-level container shared between configurations (R-CLASSSTATE); the loaders copy every member of the configuration modules, chosen by configured name (R-LOADALL). Also: extrapolation, template selection and '**' expansion read the configured tables only (R-EXTRAPOLATE, R-SEL, R-EXPAND). A found path is skipped only for what the templates say (wrong type, not conform), never for how its name looks (R-SKIPS).")
+DECIDES = ("no literal of the demo vocabulary (recomputed from the folded configuration on every run) in a semantic position of library code (R-VOCAB); leaf / narrowing / alias / key-order / separator decisions read the configured tables (R-TBL); values are never case-folded (R-NOCASE); no class-level container shared between configurations (R-CLASSSTATE); the loaders copy every member of the configuration modules, chosen by configured name (R-LOADALL). Also: extrapolation, template selection and '**' expansion read the configured tables only (R-EXTRAPOLATE, R-SEL, R-EXPAND). A found path is skipped only for what the templates say (wrong type, not conform), never for how its name looks (R-SKIPS). leaf_keys entries per basetype (R-LEAFKEYS).")
 DOES_NOT_DECIDE = 'behaviour under a generated configuration'
 
 
@@ -17,4 +17,5 @@ def rules(ctx, tier):
         lambda: search.rule_expand(ctx),
         lambda: memo.rule_nostate(ctx),
         lambda: search.rule_skips(ctx),
+        lambda: config.rule_leafkeys(ctx),
     ]
